@@ -165,6 +165,11 @@ def oracle_whiten(case, stats):
                 continue
             sc = max(1.0, float(np.max(np.abs(vb)))) if vb.size else 1.0
             tol = 1e-8 * kappa * sc * (kappa if k == "allqxx" else 1.0)
+            if k == "rtr":
+                # the whitened twin is computed by numpy: its right-hand side carries the rounding eps cond(C) |b| of the
+                # triangular solve (visible when the absolute terms are 1e6 times the residuals), d(v'v) = 2 sqrt(v'v) db + db^2
+                db = 1e-13 * R.condC * float(np.linalg.norm(R.bb))
+                tol += 2 * np.sqrt(abs(float(vb))) * db + db * db
             e = float(np.max(np.abs(va - vb))) if va.size else 0.0
             stats.ratio("whiten." + k, e / tol)
             if e > tol:
